@@ -286,10 +286,12 @@ Record cfg := mkCfg {
   fixR : bool;   (* link entry that would replace the unpack directory itself refused *)
   fixN : bool;   (* ensureDirNoSymlink: directories are created element by element, existing links refused *)
   fixW : bool;   (* removeSymlink: an existing symbolic link is replaced, not written through *)
-  fixT : bool    (* Chtimes only when the extracted path is not a symbolic link *)
+  fixT : bool;   (* Chtimes only when the extracted path is not a symbolic link *)
+  fixK : bool    (* no memory of directories already checked: every write walks its path again
+                    (false = the seeded change C11-r3m2: a per-store cache in ensureWriteDir) *)
 }.
-Definition cfg_fixed := mkCfg true true true true true true.
-Definition cfg_prefix := mkCfg false false false false false false.
+Definition cfg_fixed := mkCfg true true true true true true true.
+Definition cfg_prefix := mkCfg false false false false false false true.
 
 (* os.Lstat: the kernel walks the path (links among the parents are followed - the working
    directory may be reached through one), the last element is not followed *)
@@ -558,6 +560,13 @@ Definition write_path (g : cfg) (wd : path) (title : str) : option (list comp) :
    saved to (consulted by Fetch when a manifest's named layers are restored) *)
 Record store := mkStore { st_fs : fsys; st_names : list str; st_d2p : list (N * path) }.
 
+(* the name under which a (hypothetical, fixK = false) cache of checked directories remembers one *)
+Definition cache_mark (dir : list name) : str := 0%N :: 3%N :: 47%N :: join_names dir.
+Definition cached (g : cfg) (s_names : list str) (dir : list name) : bool :=
+  negb (fixK g) && existsb (str_eqb (cache_mark dir)) s_names.
+Definition remember (g : cfg) (s_names : list str) (dir : list name) : list str :=
+  if fixK g then s_names else cache_mark dir :: s_names.
+
 Definition ensure_write_dir (g : cfg) (wd : path) (f : fsys) (dir : list name) (rawdir : list comp) : option fsys :=
   match (if fixN g then strip_prefix wd dir else None) with
   | Some rel =>   (* ensureDirNoSymlink: os.MkdirAll(base), then element by element *)
@@ -577,20 +586,21 @@ Definition push_blob (g : cfg) (wd : path) (s : store) (title : str) (w : N) (go
   | Some raw =>
     let f := st_fs s in
     let dir := clean_abs (removelast raw) in
-    match ensure_write_dir g wd f dir (Nms dir) with
+    match (if cached g (st_names s) dir then Some f else ensure_write_dir g wd f dir (Nms dir)) with
     | None => (s, false)
     | Some f1 =>
+      let names := remember g (st_names s) dir in
       match (if fixW g && negb (path_eqb (clean_abs raw) wd)
              then unlink_if_symlink f1 (clean_abs raw) else Some f1) with
-      | None => (mkStore f1 (st_names s) (st_d2p s), false)
+      | None => (mkStore f1 names (st_d2p s), false)
       | Some f1' =>
         match write_at f1' raw w 438 with
-        | None => (mkStore f1' (st_names s) (st_d2p s), false)
+        | None => (mkStore f1' names (st_d2p s), false)
         | Some f2 =>
-          if good then (mkStore f2 (title :: st_names s) ((w, clean_abs raw) :: st_d2p s), true)
+          if good then (mkStore f2 (title :: names) ((w, clean_abs raw) :: st_d2p s), true)
           else match remove_at f2 (clean_abs raw) with
-               | Some f3 => (mkStore f3 (st_names s) (st_d2p s), false)
-               | None => (mkStore f2 (st_names s) (st_d2p s), false)
+               | Some f3 => (mkStore f3 names (st_d2p s), false)
+               | None => (mkStore f2 names (st_d2p s), false)
                end
         end
       end
@@ -604,13 +614,14 @@ Definition push_dir (g : cfg) (pres : bool) (wd cwd : path) (s : store) (title :
   | None => (s, false)
   | Some raw =>
     let dp := clean_abs raw in
-    match ensure_write_dir g wd (st_fs s) dp raw with
+    match (if cached g (st_names s) dp then Some (st_fs s) else ensure_write_dir g wd (st_fs s) dp raw) with
     | None => (s, false)
     | Some f1 =>
-      if (how =? 1)%N then (mkStore f1 (st_names s) (st_d2p s), false) else
+      let names := remember g (st_names s) dp in
+      if (how =? 1)%N then (mkStore f1 names (st_d2p s), false) else
       let '(f2, ok0) := extract g pres cwd dp title f1 es ts [] (how =? 2)%N in
       let ok := ok0 && negb (how =? 3)%N in
-      (mkStore f2 (if ok then title :: st_names s else st_names s) (st_d2p s), ok)
+      (mkStore f2 (if ok then title :: names else names) (st_d2p s), ok)
     end
   end.
 
